@@ -133,6 +133,19 @@ Theorem C06_window_is_slots : forall (ring : list nat) c j, ring <> [] -> (c + N
 Proof. exact window_is_slots_l. Qed.
 Print Assumptions C06_window_is_slots.
 
+(* ---- round robin concurrent with table replacement ---- *)
+(* route.SetTable is ONE atomic publication; a table is immutable afterwards except for its own cursors,
+   which only lookups advance; a lookup is GetTable (one atomic load) then the fetch-and-add on the route of
+   THAT table.  Every schedule of lookups and table replacements, any number of goroutines and writers: for
+   EVERY table generation g the picks it served are exactly the next j consecutive values of its cursor,
+   each once (0, 1, 2, ... for a table installed during the run) - with C06_rr_exact_target_shares: every
+   table hands each target its exact share of the lookups that table served. *)
+Theorem C06_rr_exact_per_table : forall g sched s ts, tb_wf s ts ->
+  exists j, Permutation (seen_gen g (snd (run tb_step sched s ts))) (seen_gen g ts ++ consecutive (cur_of s g) j)
+            /\ cur_of (fst (run tb_step sched s ts)) g = N.modulo (cur_of s g + N.of_nat j) two64.
+Proof. exact rr_exact_per_table_l. Qed.
+Print Assumptions C06_rr_exact_per_table.
+
 (* finding F-C06-2 (fixed by 633ec31): rrPicker before the fix ([rr_step_unrepaired]: plain read, later atomic add): both goroutines index slot 0,
    slot 1 is skipped, although the cursor advanced by two *)
 Theorem C06_rr_torn_refuted :
